@@ -244,6 +244,44 @@ impl World {
     }
 }
 
+/// Divergences detected synchronously inside a10 (before the action returns),
+/// written to the output at once so they survive a later hang or crash.
+static EARLY: std::sync::Mutex<Vec<Value>> = std::sync::Mutex::new(Vec::new());
+static EARLY_OUT: std::sync::Mutex<Option<std::fs::File>> = std::sync::Mutex::new(None);
+static CURRENT: std::sync::Mutex<(usize, usize)> = std::sync::Mutex::new((0, 0));
+
+/// Called for every a10 event while a10 is still running.
+fn observer(ev: &events::Ev) {
+    if ev.name == "OpFree" {
+        // The operation state is being freed: the kernel must not hold a request
+        // (consumed or merely published) whose user_data points at it.
+        let addr = ev.f[0];
+        let k = simk::kernel();
+        for ring in k.rings.values() {
+            let mut held = ring.inflight.iter().any(|r| r.sqe.user_data() & !1 == addr);
+            let mut h = ring.sq_head();
+            let t = ring.sq_tail();
+            while h != t {
+                let sqe = ring.read_sqe(h);
+                if sqe.user_data() > 3 && sqe.user_data() & !1 == addr {
+                    held = true;
+                }
+                h = h.wrapping_add(1);
+            }
+            if held {
+                let (path, step) = *CURRENT.lock().unwrap_or_else(|e| e.into_inner());
+                let rec = json!({"path": path, "step": step, "tag": "C01", "early": true,
+                    "field": "operation state freed while the kernel still holds its request",
+                    "expected": "kept until the final completion is posted", "observed": {"state": addr}});
+                if let Some(f) = EARLY_OUT.lock().unwrap_or_else(|e| e.into_inner()).as_mut() {
+                    let _ = writeln!(f, "{rec}");
+                }
+                EARLY.lock().unwrap_or_else(|e| e.into_inner()).push(rec);
+            }
+        }
+    }
+}
+
 struct Divergence {
     tag: &'static str,
     field: &'static str,
@@ -625,12 +663,21 @@ fn main() {
         kinds.insert(o.parse::<u64>().unwrap(), k.to_string());
     }
     let mut out: Box<dyn std::io::Write> =
-        if out_path.is_empty() { Box::new(std::io::stdout()) } else { Box::new(std::fs::File::create(&out_path).unwrap()) };
+        if out_path.is_empty() {
+            Box::new(std::io::stdout())
+        } else {
+            drop(std::fs::File::create(&out_path).unwrap());
+            Box::new(std::fs::OpenOptions::new().append(true).open(&out_path).unwrap())
+        };
 
     // Silence the default panic hook: panics inside a10 are data here.
     std::panic::set_hook(Box::new(|_| {}));
     simk::install();
     events::install();
+    events::set_observer(Some(observer));
+    if !out_path.is_empty() {
+        *EARLY_OUT.lock().unwrap() = std::fs::OpenOptions::new().append(true).open(&out_path).ok();
+    }
 
     let to = to.min(paths.len());
     let progress = Progress::open(&progress_path);
@@ -646,7 +693,13 @@ fn main() {
         for (si, ai) in path.iter().enumerate() {
             let act = &acts[*ai];
             progress.set(pi as u64, si as u64);
-            let div = step(&mut world, act, &mut kernel_access);
+            *CURRENT.lock().unwrap() = (pi, si);
+            EARLY.lock().unwrap().clear();
+            let mut div = step(&mut world, act, &mut kernel_access);
+            if !EARLY.lock().unwrap().is_empty() {
+                // Already written to the output by the observer; stop this path here.
+                div.insert(0, Divergence { tag: "early", field: "", expected: json!(null), observed: json!(null) });
+            }
             steps += 1;
             if !div.is_empty() {
                 first = Some((si, div));
@@ -660,6 +713,9 @@ fn main() {
         let mut records = Vec::new();
         if let Some((si, divs)) = first {
             for d in divs {
+                if d.tag == "early" {
+                    continue;
+                }
                 records.push(json!({"path": pi, "step": si, "tag": d.tag, "field": d.field,
                     "expected": d.expected, "observed": d.observed, "act": acts[path[si]]}));
             }
